@@ -7,7 +7,7 @@ CONSTANTS
   NewObjs <- MCNewObjs
   MaxDepth = 4
   Starts <- StartsContent2
-  Allowed = {"content.sharedStream", "resources.nameCollision"}
+  Allowed = {}
   Emit = TRUE
   EmitMod = 2000
   EmitModV = 200
